@@ -288,4 +288,4 @@ def render_external(tables, hdr, style=0, eol='\n', final_newline=True):
                 else:
                     cells.append(_protect(v))
             out.append(' '.join([t['name']] + cells))
-    return (eol.join(out) + (eol if final_newline else '')).encode('ascii')
+    return (eol.join(out) + (eol if final_newline else '')).encode('utf-8')
